@@ -167,28 +167,40 @@ pub fn run_faulted(world: &World, cfg: &tower::TowerCfg, ops: &[Op], base_snaps:
     SPIN_NODE.with(|n| *n.borrow_mut() = Some(world.node.clone()));
     let reach_slot: Arc<Mutex<Option<tower::Reachable>>> = Arc::new(Mutex::new(None));
     let reach_slot2 = reach_slot.clone();
-    // Every node RPC that fails while the node is down, after the first one of the outage, is a retry by a
-    // tower that has already noticed the outage: the flag the public API consults must (still) say
-    // 'unreachable' at that moment — nothing has answered since.
+    // A node RPC that fails while the node is down and is not the first failure *seen by that thread* in this
+    // outage is a retry by a caller that has itself flagged the node unreachable before waiting: the flag the
+    // public API consults must (still) say 'unreachable' at that moment — nothing has answered since.
+    // (Per thread: another thread's first failure may race with this thread's flagging.)
     let raised: Arc<Mutex<Option<String>>> = Arc::new(Mutex::new(None));
     {
         let reach = reach_slot.clone();
         let raised = raised.clone();
         let down = world.node.down.clone();
-        let failures = std::sync::atomic::AtomicU64::new(0);
+        let failures: Mutex<std::collections::HashMap<std::thread::ThreadId, u64>> = Mutex::new(Default::default());
         *lock(&world.node.on_failed_rpc) = Some(Arc::new(move |method: &str| {
             if !down.load(Ordering::SeqCst) {
                 return;
             }
-            let n = failures.fetch_add(1, Ordering::SeqCst);
+            let n = {
+                let mut f = lock(&failures);
+                let e = f.entry(std::thread::current().id()).or_insert(0);
+                *e += 1;
+                *e - 1
+            };
             if n == 0 {
                 return;
             }
+            // read the flag first and only then make sure the outage is still on: `down` goes back to false exactly
+            // once (when the harness ends the outage, before it lets anything succeed), so a raised flag read while
+            // `down` is still true afterwards was raised during the outage
             let flag = lock(&reach).as_ref().map(|r| *r.0.lock().unwrap_or_else(|e| e.into_inner()));
+            if !down.load(Ordering::SeqCst) {
+                return;
+            }
             if flag == Some(true) {
                 let mut r = lock(&raised);
                 if r.is_none() {
-                    *r = Some(format!("retry #{n} of {method} during the outage found the reachability flag raised although nothing had answered since the outage began: the public API takes on new work in that window"));
+                    *r = Some(format!("retry #{n} of {method} by the same caller during the outage found the reachability flag raised although nothing had answered since the outage began: the public API takes on new work in that window"));
                 }
             }
         }));
